@@ -8,6 +8,7 @@ legs
   mnemonic  mnemonic_new under ordinary and biased entropy streams, validity, repeated and interleaved
             key derivation, reference derivation, (thorough) derivation in a fresh interpreter.
 """
+import inspect
 import hashlib
 import hmac
 import os
@@ -256,7 +257,8 @@ class AdnlWorld(HistoryWorld):
             for _ in range(ctx.cfg['steps']):
                 r = rng.random()
                 if k == 0 or r < 0.3:
-                    st.queue.append({'op': 'new', 'mode': rng.choice(['uniform', 'uniform', 'low', 'high', 'sparse']), 'entropy_seed': rng.getrandbits(64)})
+                    st.queue.append({'op': 'new', 'mode': rng.choice(['uniform', 'uniform', 'low', 'high', 'sparse']), 'entropy_seed': rng.getrandbits(64),
+                                     'password': rng.choice([None, None, None, '', 'correct horse', '\u043f\u0430\u0440\u043e\u043b\u044c'])})
                     k += 1
                 elif r < 0.6:
                     st.queue.append({'op': 'derive', 'i': rng.randrange(k), 'fresh': bool(ctx.cfg.get('fresh')) and rng.random() < 0.5,
@@ -531,8 +533,11 @@ class AdnlWorld(HistoryWorld):
     def op_new(self, st, op, ctx):
         seam = EntropySeam(op['entropy_seed'], op['mode'])
         shim = types.SimpleNamespace(urandom=seam)
+        pw = op.get('password')
         with patched(lk, 'os', shim):
-            ok, words = call(lk.mnemonic_new)
+            ok, words = call(lk.mnemonic_new) if pw is None else call(lk.mnemonic_new, 24, pw)
+        if pw is not None:
+            ctx.probe('mnemonic-generated-with-the-password-argument/%s' % ('empty' if pw == '' else 'non-empty'))
         if seam.calls == 0:
             raise AssertionError('entropy seam not reached by mnemonic_new')
         ctx.count('entropy_bytes_drawn', seam.bytes)
@@ -550,10 +555,21 @@ class AdnlWorld(HistoryWorld):
             self.V(ctx, 'mnemonic-shape', 'mnemonic_new', op['mode'], 'mnemonic_new returned %r' % (words,))
             return
         ok, v = call(lk.mnemonic_is_valid, words)
+        pw_aware = False
+        if pw:
+            # a library whose validator takes the password too may validate the phrase together with it (the statement does not say
+            # which rule a password-protected phrase follows); one whose validator has no such parameter must accept what it generated
+            try:
+                pw_aware = 'password' in inspect.signature(lk.mnemonic_is_valid).parameters
+            except (TypeError, ValueError):
+                pw_aware = False
+            if pw_aware and not (ok and v is True):
+                ok, v = call(lk.mnemonic_is_valid, words, password=pw)
         if not (ok and v is True):
-            self.V(ctx, 'generated-mnemonic-invalid', 'mnemonic_is_valid', op['mode'], 'mnemonic_is_valid(mnemonic_new()) = %r for %s' % (v, ' '.join(words)))
+            self.V(ctx, 'generated-mnemonic-invalid', 'mnemonic_is_valid', op['mode'] + ('/password-argument' if pw else ''),
+                   'mnemonic_is_valid(mnemonic_new(%s)) = %r for %s' % ('' if pw is None else '24, %r' % pw, v, ' '.join(words)))
             return
-        if not ref_is_basic_seed(ref_entropy(words)):
+        if not pw_aware and not ref_is_basic_seed(ref_entropy(words)):
             self.V(ctx, 'generated-mnemonic-invalid', 'reference', op['mode'], 'the generated mnemonic is not a TON basic seed by the reference rule: %s' % ' '.join(words))
             return
         st.mn.append({'words': words, 'key': None})
